@@ -52,10 +52,20 @@ func (v *c06) OnState(x *Ctx, s *St) {
 // the play graph (and a source of endless plays if it does not advance the hand).
 func (v *c06) ExtraOps(x *Ctx, s *St) []Op {
 	ev := s.GS.Status.CurrentEvent
-	if ev == "RoundStarted" || ev == "GameClosed" {
+	if ev == "GameClosed" {
 		return nil
 	}
-	return []Op{{Kind: "Pass", Seat: -1}, {Kind: "Check", Seat: -1}, {Kind: "Fold", Seat: -1}, {Kind: "Call", Seat: -1}, {Kind: "Allin", Seat: -1}, {Kind: "Bet", Arg: 1, Seat: -1}, {Kind: "Raise", Arg: 2, Seat: -1}}
+	if ev == "RoundStarted" {
+		return []Op{{Kind: "ReadyForAll", Seat: -1}, {Kind: "PayAnte", Seat: -1}, {Kind: "PayBlinds", Seat: -1}, {Kind: "Next", Seat: -1}}
+	}
+	ops := []Op{{Kind: "Pass", Seat: -1}, {Kind: "Check", Seat: -1}, {Kind: "Fold", Seat: -1}, {Kind: "Call", Seat: -1}, {Kind: "Allin", Seat: -1}, {Kind: "Bet", Arg: 1, Seat: -1}, {Kind: "Raise", Arg: 2, Seat: -1}}
+	// ... and the driver can call the table operations the hand is not waiting for
+	for _, t := range []string{"ReadyForAll", "PayAnte", "PayBlinds", "Next"} {
+		if t != WaitPoints[ev] {
+			ops = append(ops, Op{Kind: t, Seat: -1})
+		}
+	}
+	return ops
 }
 
 func (v *c06) closedAcceptsNothing(x *Ctx, s *St) {
@@ -125,6 +135,14 @@ func firstLine(s string) string {
 }
 
 func (v *c06) OnStep(x *Ctx, s *St, op Op, post *pf.GameState) string {
+	if exp, ok := WaitPoints[s.GS.Status.CurrentEvent]; ok && s.GS.Status.CurrentEvent != "RoundStarted" && op.Kind != exp {
+		x.Violate("unawaited-step-accepted:"+op.Kind, fmt.Sprintf("the hand waits at %s for %s but accepts %s: it is not waiting for a single thing", s.GS.Status.CurrentEvent, exp, op.Label()), "refused", "accepted", op)
+		return ""
+	}
+	if s.GS.Status.CurrentEvent == "RoundStarted" && !actionKinds[op.Kind] {
+		x.Violate("unawaited-step-accepted:"+op.Kind, fmt.Sprintf("the hand waits for the player to act but accepts %s", op.Label()), "refused", "accepted", op)
+		return ""
+	}
 	a, b := roundIdx[s.GS.Status.Round], roundIdx[post.Status.Round]
 	if _, ok := roundIdx[post.Status.Round]; !ok || !(b == a || b == a+1) {
 		x.Violate("street-order", "streets must run preflop, flop, turn, river", s.GS.Status.Round+" -> same or next", post.Status.Round, op)
